@@ -239,7 +239,7 @@ impl<V, G> HnswIndex<V, G> {
         G: GraphStorage<Ctx>,
     {
         let ep_opt = self.entry_point;
-        if ep_opt.is_none() {
+        if ep_opt.is_none() || k == 0 {
             return Ok(Vec::new());
         }
         let mut curr_ep = ep_opt.unwrap();
